@@ -2,7 +2,7 @@
    (pointers are addresses, NULL = 0, sizes are size_t values) -> program returning
    the list [return value; extra results...]. *)
 From Coq Require Import List ZArith Bool.
-From SC Require Import Base Cfg Comb ModStr ModMem ModTok ModTs.
+From SC Require Import Base Cfg Comb ModStr ModMem ModTok ModTs ModSearch.
 Import ListNotations.
 Local Open Scope Z_scope.
 Local Open Scope prog_scope.
@@ -14,7 +14,8 @@ Inductive fn :=
 | F_memcpy16_s | F_memmove16_s | F_memset16_s | F_memzero16_s
 | F_memcpy32_s | F_memmove32_s | F_memset32_s | F_memzero32_s
 | F_strtok_seq | F_wcstok_seq
-| F_timingsafe_bcmp | F_timingsafe_memcmp.
+| F_timingsafe_bcmp | F_timingsafe_memcmp
+| F_bsearch_s.
 
 Definition arg (l : list Z) (i : nat) : Z := nth i l 0.
 Definition ret1 (p : prog Z) : prog (list Z) := r <- p ;; Ret [r].
@@ -42,6 +43,7 @@ Definition run_fn (c : cfg) (f : fn) (a : list Z) : prog (list Z) :=
   | F_strtok_seq => strtok_seq c (arg a 0) (arg a 1) (arg a 2) (arg a 3) (arg a 4) (arg a 5)
   | F_timingsafe_bcmp => ret1 (timingsafe_bcmp c (arg a 0) (arg a 1) (arg a 2) (arg a 3) (arg a 4))
   | F_timingsafe_memcmp => ret1 (timingsafe_memcmp c (arg a 0) (arg a 1) (arg a 2) (arg a 3) (arg a 4))
+  | F_bsearch_s => ret1 (bsearch_s c (arg a 0) (arg a 1) (arg a 2) (arg a 3) (arg a 4))
   | F_wcstok_seq => wcstok_seq c (arg a 0) (arg a 1) (arg a 2) (arg a 3) (arg a 4) (arg a 5)
   end.
 
